@@ -21,7 +21,7 @@ RULE = ("random machines (2-8 states, forest depth <= 3, random transition table
         "transitions) and the three shipped machines; sequential: random transition-name sequences plus every name from "
         "every reachable state of the shipped machines; concurrent: 2-3 simultaneous triggers under seeded yield injection "
         "on state_machine.py/events.py; distinct by (machine spec, request sequence | schedule seed); non-trivial when at "
-        "least one request was allowed")
+        "least one request was allowed; plus: 600-request histories with about 70% refused requests on one machine")
 ASSUMPTIONS = ["re-entering a common ancestor (external-transition semantics) is accepted: common ancestors may fire nothing or "
                "one leave + one enter", "handler-triggered requests are made from the enter handler of the destination state",
                "interleavings are those produced by the injected yields; distinct ones are counted, not enumerated"]
